@@ -289,8 +289,12 @@ class BcastClientSide(Redis):
 
     async def set_lock(self, key: Key, value: Value, expire: float) -> bool:
         await self._mark_as_recently_updated(key)
-        await self._local_cache.set_lock(key, value, expire)
-        return await super().set_lock(self._add_prefix(key), value, expire=expire)
+        locked = await super().set_lock(self._add_prefix(key), value, expire=expire)
+        if locked:  # as for set(): the local copy follows the server's answer
+            await self._local_cache.set(key, value, expire)
+        else:  # a refused (or failed) attempt leaves no local copy and no mark waiting for an echo
+            await self._recently_update.delete(key)
+        return locked
 
     async def unlock(self, key: Key, value: Value) -> bool:
         await self._local_cache.unlock(key, value)
